@@ -54,10 +54,29 @@ def pow2wide(e, w):
 def scaled(x, e, w):
     """x * 2^e rounded once to the format (the value GLSL ldexp names), via an exact product in a wider format"""
     return z3.fpFPToFP(RNE, z3.fpMul(RNE, wide(x, w), pow2wide(e, w)), FSORT[w])
-def float_parity_odd(fl, w):
-    """fl is a non-negative integral float: is it odd?  (integers >= 2^63 are even)"""
-    return z3.And(z3.fpLT(fl, K(2.0 ** 63, w)), z3.Extract(0, 0, z3.fpToUBV(RTZ, fl, z3.BitVecSort(64))) == 1)
-
+def g_abs(x, w): return z3.If(z3.fpGEQ(x, K(0, w)), x, z3.fpNeg(x))     # GLSL: returns x if x >= 0, otherwise -x
+def odd_integral(fl, w):
+    """fl is a finite non-negative integral float: is it odd?  Read off the bit pattern: with unbiased exponent e the unit bit is
+    bit (mb - e) of the significand 1.M; integers with e > mb are even, e < 0 means fl = 0."""
+    b = z3.fpToIEEEBV(fl); mb = 23 if w == 32 else 52; bias = 127 if w == 32 else 1023
+    s_, E, M = fields(b); sig = z3.Concat(z3.BitVecVal(1, 1), M); eb = E.size()
+    sh = z3.BitVecVal(bias + mb, eb) - E
+    return z3.And(z3.UGE(E, bias), z3.ULE(E, bias + mb), z3.Extract(0, 0, z3.LShR(sig, z3.ZeroExt(mb + 1 - eb, sh))) == 1)
+# --- term surgery for cut lemmas: a hard sub-circuit of the executed term (a division, a polynomial) is covered by a lemma that is proved
+# for ALL values of a fresh variable put in place of the sub-term's argument, then instantiated (by syntactic substitution) at the real argument
+def dag(t):
+    seen = set(); out = []; st = [t]
+    while st:
+        x = st.pop()
+        if x.get_id() in seen: continue
+        seen.add(x.get_id()); out.append(x); st.extend(reversed(x.children()))
+    return out
+def find_kind(t, kind): return [x for x in dag(t) if z3.is_app(x) and x.decl().kind() == kind]
+def free_consts(t): return [x for x in dag(t) if z3.is_const(x) and x.decl().kind() == z3.Z3_OP_UNINTERPRETED]
+def contains(t, sub): i = sub.get_id(); return any(x.get_id() == i for x in dag(t))
+def lemma(S, name, goal, hyps, timeout, w, mandatory=True):
+    r, m = S.prove('c11.lemma.%s_f%d' % (name, w), goal, hyps, timeout=timeout, kind='lemma', mandatory=mandatory, bounds='pure SMT-LIB FP lemma over fresh variables (no glm code); instantiated in the obligations that follow')
+    return r == 'unsat'
 # ----------------------------------------------------------------------------- specifications: spec(w, X, O) -> [(label, goal)]
 def sp_rti(mode, exact=True, label='value'):
     def spec(w, X, O):
@@ -66,7 +85,7 @@ def sp_rti(mode, exact=True, label='value'):
 def sp_fract(w, X, O):
     x = F(X[0])
     return [('definition', ident(O.fp, z3.fpSub(RNE, x, rti(RTN, x)))), ('ge-zero', z3.Implies(fin(x), z3.fpGEQ(O.fp, K(0, w)))), ('le-one', z3.Implies(fin(x), z3.fpLEQ(O.fp, K(1, w))))]
-def sp_abs(w, X, O): return [('value', valeq(O.fp, z3.fpAbs(F(X[0]))))]
+def sp_abs(w, X, O): return [('value', valeq(O.fp, z3.fpAbs(F(X[0])))), ('definition', ident(O.fp, g_abs(F(X[0]), w)))]
 def sp_sign(w, X, O):
     x = F(X[0]); one = K(1, w)
     return [('value', z3.Implies(nn(x), valeq(O.fp, z3.If(z3.fpGT(x, K(0, w)), one, z3.If(z3.fpLT(x, K(0, w)), z3.fpNeg(one), K(0, w)))))),
@@ -147,11 +166,11 @@ def sp_wrap_clamp(w, X, O):
 def sp_repeat(w, X, O):
     x = F(X[0]); return [('is-fract', ident(O.fp, z3.fpSub(RNE, x, rti(RTN, x)))), ('ge-zero', z3.Implies(fin(x), z3.fpGEQ(O.fp, K(0, w)))), ('le-one', z3.Implies(fin(x), z3.fpLEQ(O.fp, K(1, w))))]
 def sp_mirrorClamp(w, X, O):
-    x = F(X[0]); ax = z3.fpAbs(x)
+    x = F(X[0]); ax = g_abs(x, w)
     return [('is-fract-of-abs', valeq(O.fp, z3.fpSub(RNE, ax, rti(RTN, ax)))), ('ge-zero', z3.Implies(fin(x), z3.fpGEQ(O.fp, K(0, w)))), ('le-one', z3.Implies(fin(x), z3.fpLEQ(O.fp, K(1, w))))]
 def sp_mirrorRepeat(w, X, O):
-    x = F(X[0]); ax = z3.fpAbs(x); fl = rti(RTN, ax); rest = z3.fpSub(RNE, ax, fl)
-    return [('mirror-value', z3.Implies(fin(x), z3.fpEQ(O.fp, z3.If(float_parity_odd(fl, w), z3.fpSub(RNE, K(1, w), rest), rest)))),
+    x = F(X[0]); ax = g_abs(x, w); fl = rti(RTN, ax); rest = z3.fpSub(RNE, ax, fl)
+    return [('mirror-value', z3.Implies(fin(x), z3.fpEQ(O.fp, z3.If(odd_integral(fl, w), z3.fpSub(RNE, K(1, w), rest), rest)))),
             ('ge-zero', z3.Implies(fin(x), z3.fpGEQ(O.fp, K(0, w)))), ('le-one', z3.Implies(fin(x), z3.fpLEQ(O.fp, K(1, w))))]
 def sp_iround(unsigned):
     def spec(w, X, O):
@@ -168,6 +187,82 @@ def sp_bounded(strict):
         return [('value', (O == 1) == (z3.And(z3.fpGT(v, lo), z3.fpLT(v, hi)) if strict else z3.And(z3.fpGEQ(v, lo), z3.fpLEQ(v, hi))))]
     return spec
 
+# ----------------------------------------------------------------------------- cut lemmas: factories eh(S, w) -> extra_hyps(res)
+def out_fps(res): return [o.fp for row in res.outs for o in row if isinstance(o, FV)]
+def _cached(S, key, thunk):
+    d = S.__dict__.setdefault('_c11_lemmas', {})
+    if key not in d: d[key] = thunk()
+    return d[key]
+def _uniq(hy):
+    seen = set(); out = []
+    for h in hy:
+        if h.get_id() not in seen: seen.add(h.get_id()); out.append(h)
+    return out
+def fresh_fp(S, w, pfx):
+    S.__dict__['_c11_n'] = S.__dict__.get('_c11_n', 0) + 1
+    return z3.FP('%s!%d' % (pfx, S.__dict__['_c11_n']), FSORT[w])
+def cut_divisions(S, w, res, cuts, hy):
+    """replace every division a/b of the executed term by a fresh float d constrained only by lemmas proved for all a, b (finite, b > 0):
+    a >= b -> a/b >= 1;  a <= 0 -> a/b <= 0;  a/b is not NaN"""
+    a, b = z3.FP('lem_a', FSORT[w]), z3.FP('lem_b', FSORT[w]); q = z3.fpDiv(RNE, a, b); base = [fin(a, b), z3.fpGT(b, K(0, w))]
+    ok1 = _cached(S, ('q1', w), lambda: lemma(S, 'quotient-ge-one', z3.fpGEQ(q, K(1, w)), base + [z3.fpGEQ(a, b)], S.cap(200, 600), w))
+    ok0 = _cached(S, ('q0', w), lambda: lemma(S, 'quotient-le-zero', z3.fpLEQ(q, K(0, w)), base + [z3.fpLEQ(a, K(0, w))], S.cap(200, 600), w))
+    okn = _cached(S, ('qn', w), lambda: lemma(S, 'quotient-not-nan', z3.Not(z3.fpIsNaN(q)), base, S.cap(200, 600), w))
+    seen = set()
+    for r in out_fps(res):
+        for D in find_kind(r, z3.Z3_OP_FPA_DIV):
+            if D.get_id() in seen: continue
+            seen.add(D.get_id())
+            A, B = D.arg(1), D.arg(2); pre = z3.And(fin(A, B), z3.fpGT(B, K(0, w))); d = fresh_fp(S, w, 'cut_quot')
+            cuts.append((D, d))
+            if ok1: hy.append(z3.Implies(z3.And(pre, z3.fpGEQ(A, B)), z3.fpGEQ(d, K(1, w))))
+            if ok0: hy.append(z3.Implies(z3.And(pre, z3.fpLEQ(A, K(0, w))), z3.fpLEQ(d, K(0, w))))
+            if okn: hy.append(z3.Implies(pre, z3.Not(z3.fpIsNaN(d))))
+def apply_cuts(t, cuts):
+    for old, new in cuts: t = z3.substitute(t, (old, new))
+    return t
+def eh_smooth_div(S, w):
+    def eh(res):
+        cuts = []; hy = []; cut_divisions(S, w, res, cuts, hy); return hy, cuts
+    return eh
+def eh_smooth_range(S, w, upper=True):
+    """additionally cut at the Hermite polynomial: the executed P(tmp) (whatever operand order the compiler chose) is shown to map [0,1] into [0,1] for every float tmp
+    and is then replaced by a fresh float p with 0 <= p <= 1 whenever 0 <= tmp <= 1"""
+    def eh(res):
+        cuts = []; hy = []; cut_divisions(S, w, res, cuts, hy)
+        for r0 in out_fps(res):
+            r0 = apply_cuts(r0, cuts)
+            muls = find_kind(r0, z3.Z3_OP_FPA_MUL)
+            sq = [m for m in muls if m.arg(1).eq(m.arg(2))]
+            if len(sq) != 1 or not muls or not contains(muls[0], sq[0]): continue
+            tmp = sq[0].arg(1); top = muls[0]; t = z3.FP('lem_t', FSORT[w]); P = z3.substitute(top, (tmp, t))
+            if [x.get_id() for x in free_consts(P)] != [t.get_id()]: continue
+            dom = [z3.fpGEQ(t, K(0, w)), z3.fpLEQ(t, K(1, w))]; inst = z3.And(z3.fpGEQ(tmp, K(0, w)), z3.fpLEQ(tmp, K(1, w)))
+            pv = fresh_fp(S, w, 'cut_hermite'); cuts.append((top, pv))
+            if _cached(S, ('p0', w, P.sexpr()), lambda: lemma(S, 'hermite-ge-zero', z3.fpGEQ(P, K(0, w)), dom, S.cap(120, 400), w)): hy.append(z3.Implies(inst, z3.fpGEQ(pv, K(0, w))))
+            if upper and _cached(S, ('p1', w, P.sexpr()), lambda: lemma(S, 'hermite-le-one', z3.fpLEQ(P, K(1, w)), dom, S.cap(300, 1500), w, mandatory=(w == 32))): hy.append(z3.Implies(inst, z3.fpLEQ(pv, K(1, w))))
+        return hy, cuts
+    return eh
+def eh_mirror(S, w):
+    """cut at c = mod(floor(g), 2) with g = |x|: the executed term fl - 2*floor(fl/2) is shown to be 1 for odd fl = floor(g) and 0 for even fl, for every finite g >= 0,
+    and is then replaced by a fresh float c constrained by exactly that"""
+    def eh(res):
+        cuts = []; hy = []; seen = set()
+        for r0 in out_fps(res):
+            for D in find_kind(r0, z3.Z3_OP_FPA_DIV):
+                FL = D.arg(1)
+                if FL.decl().kind() != z3.Z3_OP_FPA_ROUND_TO_INTEGRAL: continue
+                G = FL.arg(1)
+                subs = [x for x in find_kind(r0, z3.Z3_OP_FPA_SUB) if x.arg(1).eq(FL) and contains(x, D)]
+                if len(subs) != 1 or subs[0].get_id() in seen: continue
+                C = subs[0]; seen.add(C.get_id()); g = z3.FP('lem_g', FSORT[w]); Ca = z3.substitute(C, (G, g)); FLa = z3.substitute(FL, (G, g))
+                if [x.get_id() for x in free_consts(Ca)] != [g.get_id()]: continue
+                if _cached(S, ('par', w, Ca.sexpr()), lambda: lemma(S, 'floor-mod-two-is-parity', Ca == z3.If(odd_integral(FLa, w), K(1, w), K(0, w)), [fin(g), z3.fpGEQ(g, K(0, w))], S.cap(200, 600), w)):
+                    c = fresh_fp(S, w, 'cut_parity'); cuts.append((C, c))
+                    hy.append(z3.Implies(z3.And(fin(G), z3.fpGEQ(G, K(0, w))), c == z3.If(odd_integral(FL, w), K(1, w), K(0, w))))
+        return hy, cuts
+    return eh
+
 # ----------------------------------------------------------------------------- regions of the known findings
 def _roundeven_region(res, k):
     x = res.ins[0][k]; w = x.size(); fx = fpof(x); r = z3.Or(z3.fpIsInf(fx), z3.fpIsNaN(fx))
@@ -183,10 +278,10 @@ REGIONS = {'roundeven_bad': _roundeven_region, 'iround_bad': _iround_region}
 # ----------------------------------------------------------------------------- table of functions
 class E:
     def __init__(s, name, args, out, call, spec, pre=None, variants=(), known=(), side=True, types=('f32', 'f64'), bounds='', mut=None, Ls=(1, 2, 3, 4), body_s=None, body_v=None,
-                 timeout=None, mandatory=True, heavy=False, group=None):
+                 timeout=None, mandatory=True, heavy=False, group=None, eh=None):
         s.name = name; s.args = args; s.out = out if isinstance(out, (list, tuple)) else [out]; s.multi = isinstance(out, (list, tuple)); s.call = call; s.spec = spec; s.pre = pre
         s.variants = variants; s.known = list(known); s.side = side; s.types = types; s.bounds = bounds; s.mut = mut; s.Ls = Ls; s.body_s = body_s; s.body_v = body_v
-        s.timeout = timeout; s.mandatory = mandatory; s.heavy = heavy; s.group = group or name
+        s.timeout = timeout; s.mandatory = mandatory; s.heavy = heavy; s.group = group or name; s.eh = eh
 def ct(a, t): return FT[t][0] if a == 'T' else a
 TAB = []
 def add(*a, **k): TAB.append(E(*a, **k))
@@ -223,8 +318,11 @@ add('fclamp', ['T', 'T', 'T'], 'T', 'glm::fclamp({0}, {1}, {2})', sp_fclamp, var
 add('clamp', ['T', 'T', 'T'], 'T', 'glm::clamp({0}, {1}, {2})', sp_clamp, variants=('vvv', 'vss'), bounds='definition: all operands; range facts: non-NaN, minVal <= maxVal')
 add('saturate', ['T'], 'T', 'glm::saturate({0})', sp_saturate, variants=('v',), Ls=(2, 3, 4), bounds='all x', group='compat')
 add('step', ['T', 'T'], 'T', 'glm::step({0}, {1})', sp_step, variants=('vv', 'sv'), bounds='all edge, x incl. NaN', mut=lambda w, X, O: [('m', ident(O.fp, z3.If(z3.fpLEQ(F(X[1]), F(X[0])), K(0, w), K(1, w))))])
-add('smoothstep', ['T', 'T', 'T'], 'T', 'glm::smoothstep({0}, {1}, {2})', sp_smooth_ends, pre=pre_smooth, variants=('vvv', 'ssv'), bounds='finite, edge0 < edge1, differences do not overflow', timeout=(120, 400), heavy=True)
-add('smoothstep_range', ['T', 'T', 'T'], 'T', 'glm::smoothstep({0}, {1}, {2})', sp_smooth_range, pre=pre_smooth, bounds='finite, edge0 < edge1, differences do not overflow', timeout=(60, 600), mandatory=False, heavy=True, types=('f32',))
+add('smoothstep', ['T', 'T', 'T'], 'T', 'glm::smoothstep({0}, {1}, {2})', sp_smooth_ends, pre=pre_smooth, variants=('vvv', 'ssv'), bounds='finite, edge0 < edge1, differences do not overflow', timeout=(120, 400), eh=eh_smooth_div)
+add('smoothstep_range', ['T', 'T', 'T'], 'T', 'glm::smoothstep({0}, {1}, {2})', lambda w, X, O: sp_smooth_range(w, X, O)[:1 if w == 64 else 2], pre=pre_smooth, variants=('vvv',),
+    bounds='finite, edge0 < edge1, differences do not overflow; double: only >= 0', timeout=(120, 400), eh=lambda S, w: eh_smooth_range(S, w, upper=(w == 32)))
+add('smoothstep_le_one', ['T', 'T', 'T'], 'T', 'glm::smoothstep({0}, {1}, {2})', lambda w, X, O: sp_smooth_range(w, X, O)[1:], pre=pre_smooth, types=('f64',), mandatory=False, heavy=True,
+    bounds='finite, edge0 < edge1, differences do not overflow', timeout=(120, 400), eh=eh_smooth_range, group='smoothstep_le_one')
 add('mix', ['T', 'T', 'T'], 'T', 'glm::mix({0}, {1}, {2})', sp_mix, variants=('vvv', 'vvs'), bounds='formula: all operands; end values: finite x, y', timeout=(120, 400))
 add('lerp', ['T', 'T', 'T'], 'T', 'glm::lerp({0}, {1}, {2})', sp_mix, variants=('vvv', 'vvs'), Ls=(2, 3, 4), bounds='formula: all operands; end values: finite x, y', timeout=(120, 400), group='compat')
 add('mixb', ['T', 'T', 'bool'], 'T', 'glm::mix({0}, {1}, {2})', sp_mixb, variants=('vvv', 'vvs'), bounds='all x, y (bit-exact), both selector values')
@@ -232,16 +330,16 @@ add('mod', ['T', 'T'], 'T', 'glm::mod({0}, {1})', sp_mod, variants=('vv', 'vs'),
 add('mod_one', ['T'], 'T', 'glm::mod({0}, T_(1))', sp_mod_one, bounds='y = 1, all finite x', timeout=(120, 400), heavy=True)
 add('fmod', ['T', 'T'], 'T', 'glm::fmod({0}, {1})', sp_fmod, variants=('vv', 'vs'), bounds='routing/lifting only (fmod uninterpreted)', group='routing')
 add('atan2', ['T', 'T'], 'T', 'glm::atan2({0}, {1})', sp_atan2, variants=('vv',), Ls=(2, 3, 4), bounds='routing/lifting only (atan2 uninterpreted)', group='routing')
-add('modf', ['T'], ['T', 'T'], None, sp_modf, variants=('v',), bounds='all x',
+add('modf', ['T'], ['T', 'T'], None, sp_modf, variants=('v',), bounds='all x', timeout=(150, 400),
     body_s='T_ ip; o[0] = glm::modf(a[0], ip); o2[0] = ip;', body_v='glm::vec<L_,T_> ip; stv(o, glm::modf(ldv<L_,T_>(a), ip)); stv(o2, ip);')
-add('frexp', ['T'], ['T', 'int'], None, sp_frexp, variants=('v',), bounds='all x', timeout=(120, 400), heavy=True,
+add('frexp', ['T'], ['T', 'int'], None, sp_frexp, variants=('v',), bounds='all x', timeout=(120, 400),
     body_s='int e; o[0] = glm::frexp(a[0], e); o2[0] = e;', body_v='glm::vec<L_,int> e; stv(o, glm::frexp(ldv<L_,T_>(a), e)); stv(o2, e);')
-add('ldexp', ['T', 'int'], 'T', 'glm::ldexp({0}, {1})', sp_ldexp, variants=('vv',), bounds='all finite x, all int exponents', timeout=(120, 400), heavy=True)
+add('ldexp', ['T', 'int'], 'T', 'glm::ldexp({0}, {1})', sp_ldexp, variants=('vv',), bounds='all finite x, all int exponents', timeout=(120, 400))
 add('frexp_ldexp', ['T'], 'T', None, sp_frexp_ldexp, bounds='all finite x', timeout=(120, 400), heavy=True, body_s='int e; T_ m = glm::frexp(a[0], e); o[0] = glm::ldexp(m, e);')
 add('wrap_clamp', ['T'], 'T', 'glm::clamp({0})', sp_wrap_clamp, variants=('v',), bounds='all x', group='wrap')
 add('repeat', ['T'], 'T', 'glm::repeat({0})', sp_repeat, variants=('v',), bounds='all finite x', group='wrap')
 add('mirrorClamp', ['T'], 'T', 'glm::mirrorClamp({0})', sp_mirrorClamp, variants=('v',), bounds='all finite x', group='wrap')
-add('mirrorRepeat', ['T'], 'T', 'glm::mirrorRepeat({0})', sp_mirrorRepeat, variants=('v',), bounds='all finite x', timeout=(150, 500), heavy=True)
+add('mirrorRepeat', ['T'], 'T', 'glm::mirrorRepeat({0})', sp_mirrorRepeat, variants=('v',), bounds='all finite x', timeout=(150, 500), eh=eh_mirror)
 add('iround', ['T'], 'int', 'glm::iround({0})', sp_iround(False), pre=pre_iround(False), variants=('v',), known=['KF-C11-iround-half-ulp'], bounds='0 <= x, x + 0.5 < 2^31', timeout=(120, 400))
 add('uround', ['T'], 'unsigned', 'glm::uround({0})', sp_iround(True), pre=pre_iround(True), variants=('v',), known=['KF-C11-iround-half-ulp'], bounds='0 <= x, x + 0.5 < 2^32', timeout=(120, 400))
 add('openBounded', ['T', 'T', 'T'], 'bool', 'glm::openBounded({0}, {1}, {2})', sp_bounded(True), variants=('vvv',), Ls=(1, 2, 3, 4), bounds='all operands', group='compat')
@@ -301,7 +399,7 @@ def job_constants(t, names):
             _, _, val, doc = tab[nm]
             if val is None: lo = hi = Fraction(2) ** (-23 if w == 32 else -52)
             else:
-                a, b = val.a, val.b          # rigorous enclosure [a, b] (outward-rounded interval arithmetic)
+                a, b = (+val)._mpi_         # rigorous enclosure [a, b] (outward-rounded interval arithmetic)
                 lo = Fraction(*_ratio(a)); hi = Fraction(*_ratio(b))
             def spec(i, o, lo=lo, hi=hi):
                 cb = o[0][0].bits; cr = z3.fpToReal(fpof(cb)); dn = z3.fpToReal(fpof(cb - 1)); up = z3.fpToReal(fpof(cb + 1))     # neighbours in the magnitude order
@@ -314,8 +412,7 @@ def job_constants(t, names):
     return run
 def _ratio(x):
     """(numerator, denominator) of an mpmath mpf, exact"""
-    import mpmath
-    sign, man, exp, bc = x._mpf_
+    sign, man, exp, bc = x
     man = int(man) * (-1 if sign else 1)
     return (man * (1 << exp), 1) if exp >= 0 else (man, 1 << (-exp))
 
@@ -326,10 +423,18 @@ def run_entry(S, e, t, var=None, L=0):
     def Xs(i, k): return [i[j][k] if (var is None or var[j] == 'v') else i[j][0] for j in range(len(e.args))]
     def Os(o, k): return [o[q][k] for q in range(len(e.out))] if e.multi else o[0][k]
     def lab(l, k): return l if var is None else '%s.%d' % (l, k)
+    cutbox = []
     def spec(i, o):
         g = []
-        for k in range(n): g += [(lab(l, k), gl) for l, gl in e.spec(w, Xs(i, k), Os(o, k))]
+        for k in range(n): g += [(lab(l, k), apply_cuts(gl, cutbox)) for l, gl in e.spec(w, Xs(i, k), Os(o, k))]
         return g
+    extra = None
+    if e.eh:
+        def extra(res):
+            for row in res.outs:                      # one canonical syntactic form of every sub-term before cutting (z3's rewriter is part of the trusted solver)
+                for k_, o_ in enumerate(row):
+                    if isinstance(o_, FV): row[k_] = FV(o_.n, fp=z3.simplify(o_.fp))
+            hy, cuts = e.eh(S, w)(res); cutbox[:] = cuts; return hy
     pre = None
     if e.pre:
         def pre(i):
@@ -340,7 +445,7 @@ def run_entry(S, e, t, var=None, L=0):
     if e.mut and var is None:
         def mut(i, o): return [('m.' + l, gl) for l, gl in e.mut(w, Xs(i, 0), Os(o, 0))][:1]
     to = S.cap(*e.timeout) if e.timeout else S.cap(60, 240)
-    S.check_fn(U, wname(e, t, var, L), spec, pre, timeout=to, known=e.known, side=e.side, bounds=e.bounds, mutant=mut, mandatory=e.mandatory)
+    S.check_fn(U, wname(e, t, var, L), spec, pre, timeout=to, known=e.known, side=e.side, bounds=e.bounds, mutant=mut, mandatory=e.mandatory, extra_hyps=extra)
 def job_group(names, t, Ls, scalar=True):
     def run(S):
         for nm in names:
@@ -358,6 +463,7 @@ def jobs(tier):
     groups = {}
     for e in TAB: groups.setdefault(e.group, []).append(e.name)
     for g, names in groups.items():
+        if q and g == 'smoothstep_le_one': continue
         for t in ('f32', 'f64', 'i32'):
             if not any(t in TABD[n_].types for n_ in names): continue
             heavy = any(TABD[n_].heavy for n_ in names)
